@@ -157,7 +157,7 @@ class MerchantEngine:
 
     def load_file(self, filepath: Path) -> None:
         """Load rules from a .rules file."""
-        content = filepath.read_text(encoding='utf-8')
+        content = filepath.read_text(encoding='utf-8-sig')
         self.parse(content)
 
     def parse(self, content: str) -> None:
